@@ -479,6 +479,16 @@ fn check(args: &[String]) -> i32 {
         let _ = confirmed;
     }
     findings.sort_by_key(|f| f.idx);
+    let mut miri_summary = Value::Null;
+    if prop == "C12" && std::env::var("VERIF_NO_MIRI").is_err() {
+        let m = miri_part(thorough, seed);
+        evaluations += m.executions;
+        if let Some(h) = m.harness_error {
+            harness_errors.push(h);
+        }
+        findings.extend(m.failures);
+        miri_summary = m.summary;
+    }
 
     // known findings: search hits were attributed in the workers (emulation toggles); the pinned
     // case of every open finding is re-executed here on every run
@@ -519,6 +529,9 @@ fn check(args: &[String]) -> i32 {
         "crashed_or_hung_cases_not_this_property": skipped_crashes,
         "known_findings": known_lines,
     });
+    if !miri_summary.is_null() {
+        coverage["miri"] = miri_summary;
+    }
     let zero_probes: Vec<String> = world.expected_probes().into_iter().filter(|p| stats.counters.get(*p).cloned().unwrap_or(0) == 0).map(|s| s.to_string()).collect();
     coverage["probes_stuck_at_zero"] = json!(zero_probes);
     let ev = json!({
@@ -577,6 +590,123 @@ fn check(args: &[String]) -> i32 {
     0
 }
 
+// ------------------------------------------------------------------ Miri part of C12
+
+const MIRI_DIR: &str = "/verif/sim/miri_tendril";
+
+struct MiriRun {
+    executions: u64,
+    failures: Vec<Finding>,
+    harness_error: Option<String>,
+    summary: Value,
+}
+
+fn miri_invoke(args: &[String], flags: &str) -> (bool, String) {
+    let out = Command::new("cargo")
+        .args(["+nightly", "miri", "run", "--offline", "--"])
+        .args(args)
+        .env("MIRIFLAGS", flags)
+        .env("CARGO_NET_OFFLINE", "true")
+        .current_dir(MIRI_DIR)
+        .stdin(Stdio::null())
+        .output();
+    match out {
+        Ok(o) => {
+            let mut text = String::from_utf8_lossy(&o.stdout).to_string();
+            text.push_str(&String::from_utf8_lossy(&o.stderr));
+            (o.status.success(), text)
+        },
+        Err(e) => (false, format!("cannot start cargo miri: {e}")),
+    }
+}
+
+fn miri_batch(label: &str, args: Vec<String>, nseeds: u32, seed: u64, out: &mut MiriRun) {
+    let flags = format!("-Zmiri-permissive-provenance -Zmiri-preemption-rate=0.1 -Zmiri-many-seeds=0..{nseeds}");
+    let (ok, text) = miri_invoke(&args, &flags);
+    let oks = text.lines().filter(|l| l.starts_with("OK ")).count() as u64;
+    out.executions += oks;
+    if ok {
+        return;
+    }
+    let failing = text.lines().find_map(|l| l.strip_prefix("FAILING SEED: ").and_then(|s| s.trim().parse::<u64>().ok()));
+    let err_line = text.lines().find(|l| l.starts_with("error:")).unwrap_or("").to_string();
+    match failing {
+        Some(ms) if err_line.contains("Undefined Behavior") || err_line.contains("memory leaked") || err_line.contains("deadlock") || err_line.contains("panicked") || !err_line.is_empty() => {
+            out.executions += 1;
+            let class = if err_line.contains("Data race") {
+                "miri-data-race"
+            } else if err_line.contains("leaked") {
+                "miri-leak"
+            } else if err_line.contains("Undefined Behavior") {
+                "miri-undefined-behavior"
+            } else {
+                "miri-abnormal-termination"
+            };
+            let dir = format!("{VERIF}/replays");
+            let _ = std::fs::create_dir_all(&dir);
+            let path = format!("{dir}/C12-miri-{label}-s{seed}-m{ms}.json");
+            let v = json!({
+                "property": "C12", "world": "miri", "violation": class, "detail": err_line,
+                "seed": seed, "case": {"argv": args, "miri_seed": ms, "flags": "-Zmiri-permissive-provenance -Zmiri-preemption-rate=0.1"},
+            });
+            let _ = std::fs::write(&path, serde_json::to_string_pretty(&v).unwrap());
+            out.failures.push(Finding { idx: ms, class: class.into(), detail: err_line, replay: path });
+        },
+        _ => {
+            out.harness_error = Some(format!("cargo miri ({label}) failed without a Miri diagnostic: {}", text.lines().rev().take(6).collect::<Vec<_>>().join(" | ")));
+        },
+    }
+}
+
+fn miri_part(thorough: bool, seed: u64) -> MiriRun {
+    let mut out = MiriRun { executions: 0, failures: vec![], harness_error: None, summary: Value::Null };
+    let t0 = Instant::now();
+    let (n_single, n_thread_batches, n_thread_seeds, steps) = if thorough { (1024u32, 24u32, 128u32, 60u32) } else { (96, 3, 48, 40) };
+    // (a) single-thread histories: one history per interpreter seed
+    miri_batch("single", vec!["single-any".into(), seed.to_string(), (if thorough { 80 } else { 40 }).to_string()], n_single, seed, &mut out);
+    let singles = out.executions;
+    // (b) real threads: a few fixed histories under many schedule seeds ...
+    for b in 0..n_thread_batches {
+        if out.harness_error.is_some() {
+            break;
+        }
+        let hs = simcore::rng::mix(seed, b as u64) >> 8;
+        miri_batch(&format!("threads{b}"), vec!["threads".into(), hs.to_string(), steps.to_string()], n_thread_seeds, seed, &mut out);
+    }
+    // ... and one history per schedule seed
+    if out.harness_error.is_none() {
+        miri_batch("threads-any", vec!["threads-any".into(), seed.to_string(), steps.to_string()], if thorough { 512 } else { 64 }, seed, &mut out);
+    }
+    out.summary = json!({
+        "miri_single_thread_histories": singles,
+        "miri_thread_scenario_executions": out.executions - singles,
+        "miri_thread_histories_x_schedule_seeds": format!("{n_thread_batches} x {n_thread_seeds} + one history per seed"),
+        "miri_flags": "-Zmiri-permissive-provenance -Zmiri-preemption-rate=0.1 -Zmiri-many-seeds",
+        "miri_wall_s": t0.elapsed().as_secs_f64(),
+        "F10_preemption_between_threads": "every thread-scenario execution runs 3 threads + main under Miri's seeded scheduler",
+    });
+    out
+}
+
+fn miri_replay(v: &Value, path: &str) -> i32 {
+    let argv: Vec<String> = v["case"]["argv"].as_array().map(|a| a.iter().filter_map(|x| x.as_str().map(|s| s.to_string())).collect()).unwrap_or_default();
+    let ms = v["case"]["miri_seed"].as_u64().unwrap_or(0);
+    let flags = format!("{} -Zmiri-seed={ms}", v["case"]["flags"].as_str().unwrap_or(""));
+    let (ok, text) = miri_invoke(&argv, &flags);
+    if ok {
+        println!("replay: property C12 held on this Miri execution");
+        return 0;
+    }
+    let err_line = text.lines().find(|l| l.starts_with("error:")).unwrap_or("");
+    if err_line.is_empty() {
+        eprintln!("HARNESS-ERROR: cargo miri failed without a diagnostic");
+        return 2;
+    }
+    println!("VIOLATION property=C12 replay={path}");
+    println!("  {err_line}");
+    1
+}
+
 fn replay(args: &[String]) -> i32 {
     install_panic_hook();
     let path = &args[0];
@@ -596,6 +726,9 @@ fn replay(args: &[String]) -> i32 {
     };
     let prop = v["property"].as_str().unwrap_or("");
     let class = v["violation"].as_str().unwrap_or("");
+    if v["world"].as_str() == Some("miri") {
+        return miri_replay(&v, path);
+    }
     let world = match world_for(prop) {
         Some(w) => w,
         None => return 2,
